@@ -913,20 +913,49 @@ func ruleDupComplete(c *Ctx) []Obligation {
 	for _, f := range fields {
 		con := fmt.Sprintf("%s re-allocates Entry.%s (mutated in place elsewhere)", c.FnName(deep), f.Name())
 		realloc := false
+		narrowed := ""
 		for _, s := range storesToField(deep, f) {
 			if _, isAlloc := rootOf(s.Addr).(*ssa.Alloc); !isAlloc {
 				continue
 			}
+			fresh := false
 			switch v := s.Val.(type) {
 			case *ssa.MakeMap, *ssa.Alloc, *ssa.MakeSlice:
-				realloc = true
+				fresh = true
 			case *ssa.Call:
 				if cal := v.Call.StaticCallee(); cal != nil && c.isConstructor(cal) {
-					realloc = true
+					fresh = true
 				}
+			}
+			if !fresh {
+				continue
+			}
+			realloc = true
+			// the re-allocation may be skipped only when the original field is nil: every guard it sits under
+			// must be a nil test of the original's same field
+			for _, g := range guardsAt(s.Block()) {
+				if isLoopHeader(g.If.Block()) {
+					continue // the exit condition of an earlier loop: always eventually taken
+				}
+				x, isEq, okn := nilTest(g.Cond)
+				_, gf, _ := loadedField(x)
+				if okn && gf == f && isEq != g.Branch {
+					continue
+				}
+				if okn && x != nil {
+					// nil test on a sub-object reached through this field (e.RPC.Input != nil guarding ne.RPC.Input = …)
+					if derivesFrom(x, func(y ssa.Value) bool { return isFieldRef(y, f) }) {
+						continue
+					}
+				}
+				narrowed = c.InstrPos(g.If)
 			}
 		}
 		pos := c.Pos(deep.Pos())
+		if realloc && narrowed != "" {
+			obs = append(obs, bad(R, con, pos, "the re-allocation is skipped under a condition other than `original."+f.Name()+" == nil` ("+narrowed+"): in that case the copy shares the object with the original, and "+mutated[f]+" mutates it in place"))
+			continue
+		}
 		if realloc {
 			obs = append(obs, ok(R, con, pos, "fresh value stored into the copy; in-place mutation seen in "+mutated[f]))
 		} else {
@@ -1006,4 +1035,13 @@ func (c *Ctx) freshRootAt(base ssa.Value, at ssa.Instruction, depth int) bool {
 		return true
 	})
 	return fresh && !notFresh
+}
+
+func isLoopHeader(b *ssa.BasicBlock) bool {
+	for _, p := range b.Preds {
+		if b.Dominates(p) {
+			return true
+		}
+	}
+	return false
 }
